@@ -8,14 +8,14 @@ import (
 	"fmt"
 	"os"
 
-	"verifharness/envcheck"
+	supvmodel "go.amzn.com/lambda/supervisor/model"
 	"verifharness/dinvoke"
+	"verifharness/envcheck"
 	"verifharness/gate"
+	"verifharness/rec"
 	"verifharness/sanitize"
 	"verifharness/stack"
 	"verifharness/supv"
-	"verifharness/rec"
-	supvmodel "go.amzn.com/lambda/supervisor/model"
 	"verifharness/walkfile"
 )
 
@@ -49,6 +49,17 @@ func main() {
 		if err := rep.Write(*out); err != nil {
 			die("write: %v", err)
 		}
+	case "gatestress":
+		obs := gate.Stress(int64(*seed), *reps)
+		f, err := os.Create(*out)
+		if err != nil {
+			die("create: %v", err)
+		}
+		enc := json.NewEncoder(f)
+		for _, o := range obs {
+			_ = enc.Encode(o)
+		}
+		f.Close()
 	case "envcases":
 		stack.Quiet()
 		cases, err := envcheck.Load(*in)
